@@ -120,6 +120,74 @@ def rule_allproviders(ctx: Ctx):
     rep.floor("C12.allproviders", "executor.add sites on paths of resolve()", n_add, 2)
 
 
+def rule_filter(ctx: Ctx):
+    """C12.allproviders: which specs resolve() skips, as a truth table over (reference allowed, is_convention, name found)."""
+    from .. import boolfn
+
+    rep = ctx.rep
+    rs = ctx.fn("Listeners.resolve")
+    seen = False
+    for p in ctx.paths(rs, inline=None, exc_edges="none", unroll=1):
+        evs = p.events
+        its = [e for e in evs if e.kind == "iter" and e.x.get("loop") == "for"]
+        if not its:
+            continue
+        spec = show(its[0].x["elem"])
+        skip_tests = []
+        for st_ in own_nodes(rs.node):
+            if isinstance(st_, ast.If) and any(isinstance(x, ast.Continue) for x in st_.body):
+                skip_tests.append(st_.test)
+        if len(skip_tests) != 1:
+            rep.unrecognised("C12.allproviders", rs.loc(), f"{len(skip_tests)} skip tests in resolve()")
+        seen = True
+        test = skip_tests[0]
+        sp = its[0].node.target.id if isinstance(its[0].node.target, ast.Name) else "spec"
+
+        def atom(x):
+            t = show(x)
+            if t == f"{sp}.reference not in {rs.params[3]}":
+                return "REF_NOT_ALLOWED"
+            if t == f"{sp}.reference in {rs.params[3]}":
+                return "REF_ALLOWED"
+            if t == f"{sp}.is_convention":
+                return "CONVENTION"
+            if t == f"{sp}.func not in found_convention_specs":
+                return "CONV_NOT_FOUND"
+            if t == f"{sp}.func in found_convention_specs":
+                return "CONV_FOUND"
+            return None
+
+        present = {atom(n) for n in ast.walk(test)} - {None}
+        dom = {a: [True, False] for a in present}
+        try:
+            got = boolfn.table(test, atom, dom)
+        except boolfn.Unrecognised as u:
+            rep.unrecognised("C12.allproviders", rs.loc(), f"skip condition uses `{u}`")
+
+        def spec_fn(**kw):
+            not_allowed = kw.get("REF_NOT_ALLOWED", not kw.get("REF_ALLOWED", True))
+            conv = kw.get("CONVENTION", False)
+            not_found = kw.get("CONV_NOT_FOUND", not kw.get("CONV_FOUND", True))
+            return not_allowed or (conv and not_found)
+
+        want = boolfn.spec_table(spec_fn, dom)
+        rep.check(got == want and {"CONVENTION"} <= present and (present & {"REF_NOT_ALLOWED", "REF_ALLOWED"}), "C12.allproviders", rs.loc(),
+                  "a spec is skipped exactly when its reference kind is not allowed, or it is a naming-convention spec no provider defines",
+                  rs.key, f"skip if {show(test)}", atoms=sorted(present))
+        fc = [e for e in p.of("bind") if e.x["name"] == "found_convention_specs"]
+        if fc:
+            rep.check(xshow(fc[0].term, evs) == f"{rs.params[1]}.conventional_specs & self.all_attrs", "C12.allproviders", fc[0].loc(),
+                      "convention names count as found when any provider has an attribute of that name", rs.key, norm_stmt(fc[0].node))
+        break
+    if not seen:
+        raise AnalysisError("anchor lost: spec loop of Listeners.resolve")
+    fl = ctx.fn("Listeners.from_listeners")
+    for p in ctx.paths(fl, inline=None, exc_edges="none"):
+        v = xshow(p.value, p.events) if p.kind == "return" else ""
+        rep.check("set().union(*(" in v and ".all_attrs for " in v and v.startswith("cls(tuple("), "C12.allproviders", fl.loc(),
+                  "the provider set knows the attribute names of all its providers", fl.key, f"return {v}")
+
+
 def rule_samepath(ctx: Ctx):
     rep = ctx.rep
     g = callgraph(ctx)
@@ -302,4 +370,4 @@ def rule_engine(ctx: Ctx, rule: str = "C12.engine", only=None):
         rep.floor(rule, f"attaching paths of {fn.qualname}", n, 1)
 
 
-RULES = [rule_allproviders, rule_samepath, rule_dedup, rule_own, rule_engine]
+RULES = [rule_allproviders, rule_filter, rule_samepath, rule_dedup, rule_own, rule_engine]
